@@ -13,7 +13,7 @@ import (
 func init() { register("C11", true, runC11) }
 
 func runC11(c *Check) {
-	c.Explanation = "Decides the frame and shape clauses of C11 for every profile and expression: Prune, PruneFrom and RemoveUninteresting can only re-assign Location.Line and Sample.Location (never Profile.Sample, Sample.Value, labels, or any element in place) (R1); every value assigned to those two fields is a suffix re-slice x[k:] of the same field of the same object, so the frames that remain are the root-side ones in their original order and nothing is reordered or invented (R2); RemoveUninteresting cannot reach Prune when drop_frames is empty (R3); the compiled expressions are the profile's strings wrapped as ^(...)$ (full match), drop/keep are not swapped, and names are simplified before matching (R4). Also: the memoised match function stores exactly what it returns (R6), the loop-carried flag of the per-sample frame loop starts from a constant for every sample (R7), and a loop that re-slices the list it scans leaves right after the re-slice (R8). Also: a location counts as a user frame only when absent from every marking set (R9); simplifyFunc never returns the untrimmed name (R10). Not decided: which frame is selected as the cut point, regexp semantics."
+	c.Explanation = "Decides the frame and shape clauses of C11 for every profile and expression: Prune, PruneFrom and RemoveUninteresting can only re-assign Location.Line and Sample.Location (never Profile.Sample, Sample.Value, labels, or any element in place) (R1); every value assigned to those two fields is a suffix re-slice x[k:] of the same field of the same object, so the frames that remain are the root-side ones in their original order and nothing is reordered or invented (R2); RemoveUninteresting cannot reach Prune when drop_frames is empty (R3); the compiled expressions are the profile's strings wrapped as ^(...)$ (full match), drop/keep are not swapped, and names are simplified before matching (R4). Also: the memoised match function stores exactly what it returns (R6), the loop-carried flag of the per-sample frame loop starts from a constant for every sample (R7), and a loop that re-slices the list it scans leaves right after the re-slice (R8). Also: a location counts as a user frame only when absent from every marking set (R9); simplifyFunc never returns the untrimmed name (R10). Round-I additions: pruning keeps no package-level state; regexp match positions are applied to the string that was matched. Not decided: which frame is selected as the cut point, regexp semantics."
 	p := c.P
 	m := newModAnalyzer(p)
 	prune := c.anchorFn("C11-R1", "profile", "(*Profile).Prune")
